@@ -181,7 +181,7 @@ fn worker_body(args: WorkerArgs) {
         }
         let seed = run_seed(args.seed, info.name, i);
         let mut rng = Rng::new(seed);
-        let plan = scen.generate(&mut rng, args.tier);
+        let plan = scen.generate(&mut rng, args.tier, i);
         scen.execute(&plan, &mut ctx);
         unsafe {
             libc::alarm(0);
@@ -221,7 +221,7 @@ pub fn plan_for(scenario: &str, seed: u64, tier: Tier, run: u64) -> Plan {
     let scen = scenario_by_name(scenario).unwrap_or_else(|| harness_error("unknown scenario"));
     let info = scen.info();
     let mut rng = Rng::new(run_seed(seed, info.name, run));
-    scen.generate(&mut rng, tier)
+    scen.generate(&mut rng, tier, run)
 }
 
 /// `bsvsim exec`: execute one explicit plan, write the result JSON to `out`.
